@@ -108,3 +108,17 @@ Example C14_str_self_keys_kept :
   wf_C14 w_keys = true /\ strip w_keys = w_keys /\ read_sjson (write_sjson w_keys) = Ok w_keys /\
   exists b', write_read w_keys = Ok b' /\ pub b' = w_keys.
 Proof. exact str_self_keys_kept. Qed.
+
+(* seeded change C14-3: sequence ids (and feature id/name/seqid/type, location and basket entries named id) that are falsy JSON
+   scalars -- 0, None, False, 0.0, '' -- are inside the domain and come back with value and type *)
+Example C14_falsy_ids_kept :
+  wf_C14 w_falsy = true /\ strip w_falsy = w_falsy /\ read_sjson (write_sjson w_falsy) = Ok w_falsy /\
+  exists b', write_read w_falsy = Ok b' /\ pub b' = w_falsy.
+Proof. exact falsy_ids_kept. Qed.
+
+(* rebuilding a sequence from its written attributes never touches a metadata mapping that has the key 'id', whatever its value *)
+Theorem C14_seq_id_any_value : forall d m t,
+  conv_kv m = m -> has_key K_id m = true -> (str_eqb t N_nt || str_eqb t N_aa) = true ->
+  construct_seq [(K_data, OStr d); (K_meta, OAttr CMeta m); (K_type, OStr t)] = Ok (OSeq (upper d) m t).
+Proof. exact seq_id_any_value. Qed.
+Print Assumptions C14_seq_id_any_value.
